@@ -19,8 +19,8 @@ import (
 	"fmt"
 	"net/netip"
 	"strings"
-	"time"
 	"testing"
+	"time"
 
 	"github.com/fxamacker/cbor/v2"
 
